@@ -1,7 +1,306 @@
-(* props/C17.v — placeholder while the round-trip lemmas are being closed. *)
+(* props/C17.v — "Serialisation is faithful and round-trips".
+
+   Models: CreateJob.v ([to_object] = model_to_object: dict(by_alias) + the None / Decimal walk),
+   Parse.v ([parse_kind] / [parse_cls] = the structural decoder driven by a schema), Validators.v (the
+   repo-side validators), Export.v ([export], [parse_any], [roundtrip]).  Lemmas: ExportProofs.v,
+   NumRoundtrip.v.  Everything is for ALL values / documents / fuels; statements about the 2023-09
+   classes are about Generated.schema (read from the live classes by tools/regen.py).
+
+     C17_plain, C17_plain_decoded      the export is plain data: no null, JSON scalars only
+     C17_alias, C17_alias_read,
+     C17_names_distinct                every key is emitted under the name the decoder reads
+     C17_int_text, C17_decimal_text    int(str(z)) = z,  Decimal(str(d)) = d  (all z, all m, e)
+     C17_roundtrip_scalar              decode(export x) = x for every scalar kind
+     C17_roundtrip_generic             decode(export x) = x, any schema, under a computed schema
+                                       condition + "validators accept the re-export"
+     C17_pre_hook_stable               ... which holds of every pre-validator of the live schema
+     C17_roundtrip_inner,
+     C17_roundtrip_below_roots         unconditional round trip of every template class below the roots
+     C17_fuel_enough                   the decoder fuel is never exhausted on the live schema
+     C17_roundtrip_partial             the function [roundtrip] on the template roots, under one named
+                                       hypothesis (see the comment at C17_roundtrip below) *)
 From Coq Require Import List NArith ZArith String.
 Import ListNotations.
-Require Import OJD.Base OJD.Json OJD.Schema OJD.Generated.
+Require Import OJD.Base OJD.Lexer OJD.Json OJD.Schema OJD.Generated OJD.Numerals OJD.NumPrint OJD.CreateJob
+               OJD.Parse OJD.Validators OJD.Accept OJD.Export OJD.FsRefs OJD.ScopeWalk
+               OJD.NumRoundtrip OJD.ExportProofs.
 Local Open Scope string_scope.
-Example C17_schema_has_job : match lookup_cls Generated.schema "Job" with Some _ => True | None => False end.
-Proof. vm_compute. exact I. Qed.
+Local Open Scope list_scope.
+
+(* ------------------------------------------------------------------ plain data *)
+
+(* [plain j]: no JNull anywhere (top, list item, member value); leaves are JBool / JInt / JStr / JDec
+   (a float).  The type [json] has no constructor for a Decimal, a FormatString or an Enum member: that
+   none is needed is part of the statement — [to_object] prints a Decimal (MDec) as text.
+   Side condition: the instance tree is not None and has no None as a LIST item; None dictionary values
+   and None model fields are allowed (they are dropped). *)
+Theorem C17_plain : forall SC fuel v,
+  no_none_items v = true -> mval_depth v < fuel -> plain (to_object SC fuel v) = true.
+Proof. exact to_object_plain. Qed.
+Print Assumptions C17_plain.
+
+(* the side condition holds of everything the decoder returns: every decoded model exports plain *)
+Theorem C17_plain_decoded : forall classify root j v,
+  parse_any classify root j = Ok v -> plain (export v) = true.
+Proof. exact decoded_exports_plain. Qed.
+Print Assumptions C17_plain_decoded.
+
+(* ------------------------------------------------------------------ keys *)
+
+(* the key [to_object] emits for a field is its alias ... *)
+Theorem C17_alias : forall SC c k fl,
+  lookup_cls SC c = Some k -> NoDup (map f_name (c_fields k)) -> In fl (c_fields k) ->
+  alias_of SC c (f_name fl) = f_alias fl.
+Proof. exact alias_of_field. Qed.
+Print Assumptions C17_alias.
+
+(* ... and the member [parse_cls] looks up for the field ([assoc (f_alias fl)]) is the one emitted for
+   it: absent when the value is None, the export of the value otherwise *)
+Theorem C17_alias_read : forall SC f c k (vals : list mval) fl x,
+  lookup_cls SC c = Some k ->
+  NoDup (map f_name (c_fields k)) -> NoDup (map f_alias (c_fields k)) ->
+  List.length vals = List.length (c_fields k) ->
+  In (fl, x) (combine (c_fields k) vals) ->
+  exists ms,
+    to_object SC (S f) (MModel c (combine (map f_name (c_fields k)) vals)) = JObj ms /\
+    assoc (str_of_string (f_alias fl)) ms = option_map (to_object SC f) (present x).
+Proof. exact alias_read. Qed.
+Print Assumptions C17_alias_read.
+
+Theorem C17_names_distinct : forall c k, lookup_cls Generated.schema c = Some k ->
+  NoDup (map f_name (c_fields k)) /\ NoDup (map f_alias (c_fields k)).
+Proof. exact generated_names_distinct. Qed.
+Print Assumptions C17_names_distinct.
+
+(* '$schema' included *)
+Example C17_schema_key : alias_of Generated.schema "JobTemplate" "schemaStr" = "$schema".
+Proof. vm_compute. reflexivity. Qed.
+
+(* ------------------------------------------------------------------ numerals *)
+
+Theorem C17_int_text : forall z, parse_int (print_Z z) = Some z.
+Proof. exact parse_int_print_Z. Qed.
+Print Assumptions C17_int_text.
+
+(* same coefficient and exponent, plain and scientific notation alike *)
+Theorem C17_decimal_text : forall m e, parse_dec (print_dec m e) = Some (Fin m e).
+Proof. exact parse_dec_print_dec. Qed.
+Print Assumptions C17_decimal_text.
+
+(* ------------------------------------------------------------------ scalars *)
+
+Theorem C17_roundtrip_scalar : forall SC classify pre post fuel f' k v x,
+  scalar_kind k = true ->
+  parse_kind SC classify pre post (S fuel) k v = Ok x ->
+  parse_kind SC classify pre post (S fuel) k (to_object SC (S f') x) = Ok x.
+Proof. exact roundtrip_scalar. Qed.
+Print Assumptions C17_roundtrip_scalar.
+
+(* ------------------------------------------------------------------ the generic round trip *)
+
+(* [schema_rt_ok SC CL] (computable): for every class of CL — field names distinct, aliases distinct,
+   every class a field refers to is in CL, every discriminated union's key is a single string-valued
+   field of each member class, and in an ordered union every alternative after the first accepts a value
+   only in the form in which it is exported again.
+   [hooks_stable]: the validators accept the re-export of an instance they accepted.
+   [exp SC x] = [to_object] with the canonical fuel. *)
+Theorem C17_roundtrip_generic : forall SC classify pre post CL,
+  schema_rt_ok SC CL = true ->
+  hooks_stable SC classify pre post CL ->
+  forall f,
+    (forall k v x, kind_ok SC CL k = true ->
+                   parse_kind SC classify pre post f k v = Ok x ->
+                   parse_kind SC classify pre post f k (exp SC x) = Ok x)
+    /\ (forall c v x, In c CL ->
+                      parse_cls SC classify pre post f c v = Ok x ->
+                      parse_cls SC classify pre post f c (exp SC x) = Ok x).
+Proof. exact roundtrip_generic. Qed.
+Print Assumptions C17_roundtrip_generic.
+
+Theorem C17_exp_is_to_object : forall SC F x, mval_depth x < F -> to_object SC F x = exp SC x.
+Proof. exact to_object_exp. Qed.
+Print Assumptions C17_exp_is_to_object.
+
+(* the live schema: every class but one meets the structural condition *)
+Theorem C17_schema_ok :
+  schema_rt_ok Generated.schema template_classes = true
+  /\ filter (fun c => negb (cls_ok Generated.schema (map fst Generated.schema) c)) (map fst Generated.schema)
+     = ["StepParameterSpace"].
+Proof. exact live_schema_ok. Qed.
+Print Assumptions C17_schema_ok.
+
+(* every pre-validator of the live schema accepts the re-export of what it accepted *)
+Theorem C17_pre_hook_stable : forall classify post f c v x,
+  parse_cls Generated.schema classify pre_hook post f c v = Ok x ->
+  pre_hook c (exp Generated.schema x) = true.
+Proof. exact pre_hook_stable. Qed.
+Print Assumptions C17_pre_hook_stable.
+
+(* no hypothesis left for the template classes below the two roots (StepTemplate, Environment, the
+   parameter definitions, scripts, host requirements, ...): decode (export x) = x at every fuel *)
+Theorem C17_roundtrip_inner : forall classify f c v x,
+  In c inner_classes ->
+  parse_cls Generated.schema classify pre_hook (post_hook classify) f c v = Ok x ->
+  parse_cls Generated.schema classify pre_hook (post_hook classify) f c (exp Generated.schema x) = Ok x.
+Proof. exact roundtrip_inner. Qed.
+Print Assumptions C17_roundtrip_inner.
+
+(* ... and as the function [roundtrip] computes it (fuel recomputed from the exported document, job-side
+   pre-validators installed): unconditional for the classes below the roots *)
+Theorem C17_roundtrip_below_roots : forall classify c j v,
+  In c inner_classes ->
+  parse_any classify c j = Ok v ->
+  snd (roundtrip classify c v) = true.
+Proof. exact roundtrip_live_inner. Qed.
+Print Assumptions C17_roundtrip_below_roots.
+
+(* the fuel [parse_fuel] is never the reason for an outcome on the live schema: any larger fuel gives the
+   same result (unions nest at most 3 deep, each JSON level costs at most 4) *)
+Theorem C17_fuel_enough : forall classify pre post f c v,
+  parse_fuel v <= f ->
+  parse_cls Generated.schema classify pre post f c v
+  = parse_cls Generated.schema classify pre post (parse_fuel v) c v.
+Proof. exact parse_fuel_enough. Qed.
+Print Assumptions C17_fuel_enough.
+
+(* C17_roundtrip, full statement (NOT proved):
+
+     forall classify root j v,
+       parse_any classify root j = Ok v -> snd (roundtrip classify root v) = true.
+
+   Proved: [C17_roundtrip_below_roots] (every template class except the two roots, no hypothesis) and
+   [C17_roundtrip_partial]: root = any template class, the two roots included, under ONE hypothesis:
+
+   [prevalidate_stable classify]: the variable-reference walk (C03's [prevalidate] — the only validator
+   code besides the pre-validators that reads the RAW document; it is run by the root validators of
+   JobTemplate and EnvironmentTemplate) reports nothing on the re-export of a template it reported
+   nothing on.  Missing: invariance of the walker under  j |-> export (decode j)  (null members dropped,
+   numbers re-typed as text, lax strings re-typed).  Every other validator is covered by
+   [C17_pre_hook_stable] (pre-validators) or does not look at the raw document.
+
+   Not covered: root = "Job" (and "Step", "StepParameterSpace", and the job-side requirement classes):
+   StepParameterSpace holds an ordered union of two MODEL classes, outside the structural condition
+   (C17_schema_ok), and the job-side AmountRequirement / AttributeRequirement pre-validator re-parses the raw
+   object as the template class. *)
+Theorem C17_roundtrip_partial : forall classify root j v,
+  In root template_classes ->
+  parse_any classify root j = Ok v ->
+  prevalidate_stable classify ->
+  snd (roundtrip classify root v) = true.
+Proof. exact roundtrip_live. Qed.
+Print Assumptions C17_roundtrip_partial.
+
+Theorem C17_prevalidate_stable_def : forall classify,
+  prevalidate_stable classify <->
+  (forall f root ms flds,
+      root = "JobTemplate" \/ root = "EnvironmentTemplate" ->
+      parse_cls Generated.schema classify pre_hook (post_hook classify) f root (JObj ms) = Ok (MModel root flds) ->
+      prevalidate Generated.schema (fs_refs classify) root (exp Generated.schema (MModel root flds)) = []).
+Proof. exact (fun classify => iff_refl _). Qed.
+Print Assumptions C17_prevalidate_stable_def.
+
+(* ================================================================== non-vacuity *)
+
+(* C17_plain: an instance with a None field, a None dictionary value, a Decimal and a float *)
+Definition ex_val : mval :=
+  MModel "AmountRequirement"
+    [("name", MStr $"amount.x"); ("min", MDec 15 (-1)); ("max", MNone)].
+Example C17_plain_nonvacuous :
+  no_none_items ex_val = true /\ mval_depth ex_val < 3
+  /\ to_object Generated.schema 3 ex_val = JObj [($"name", JStr $"amount.x"); ($"min", JStr $"1.5")]
+  /\ no_none_items (MDict [($"a", MNone); ($"b", MFloat 25 (-1))]) = true.
+Proof. repeat split; try (vm_compute; repeat constructor). Qed.
+
+(* the side condition is needed: a None list item is exported as null *)
+Example C17_plain_side_condition :
+  plain (to_object Generated.schema 3 (MList [MNone])) = false.
+Proof. reflexivity. Qed.
+
+Example C17_alias_nonvacuous :
+  exists k fl, lookup_cls Generated.schema "JobTemplate" = Some k /\ In fl (c_fields k)
+               /\ f_name fl = "schemaStr" /\ f_alias fl = "$schema".
+Proof.
+  destruct (lookup_cls Generated.schema "JobTemplate") as [k|] eqn:E; [|vm_compute in E; discriminate].
+  vm_compute in E. inversion E. subst k. eexists. eexists. split; [reflexivity|].
+  split; [cbn; do 6 right; left; reflexivity|]. split; reflexivity.
+Qed.
+
+Example C17_decimal_text_examples :
+  print_dec 15 (-1) = $"1.5" /\ print_dec 5 3 = $"5E+3" /\ print_dec (-12) (-9) = $"-1.2E-8"
+  /\ print_dec 0 (-2) = $"0.00" /\ print_dec 100 0 = $"100".
+Proof. vm_compute. repeat split. Qed.
+
+(* scalar round trip: a lax string field given an int, a Decimal given a float and an int *)
+Example C17_roundtrip_scalar_nonvacuous :
+  parse_kind Generated.schema ascii_class pre_hook (post_hook ascii_class) 1 (KStr false None None CS_any) (JInt 12)
+  = Ok (MStr $"12")
+  /\ parse_kind Generated.schema ascii_class pre_hook (post_hook ascii_class) 1 KDec (JDec 15 (-1)) = Ok (MDec 15 (-1))
+  /\ parse_kind Generated.schema ascii_class pre_hook (post_hook ascii_class) 1 KDec (JStr $"1e3") = Ok (MDec 1 3)
+  /\ scalar_kind KDec = true.
+Proof. vm_compute. repeat split. Qed.
+
+(* a job template document using coercions: an INT default given as text, a FLOAT bound given as a
+   float, a null member, a range list mixing ints and strings *)
+Definition ex_action : json :=
+  JObj [($"command", JStr $"echo"); ($"args", JArr [JStr $"{{Param.N}}"; JStr $"{{Task.Param.i}}"]); ($"timeout", JInt 30)].
+Definition ex_step : json :=
+  JObj [($"name", JStr $"s1");
+        ($"description", JNull);
+        ($"script", JObj [($"actions", JObj [($"onRun", ex_action)])]);
+        ($"parameterSpace",
+         JObj [($"taskParameterDefinitions",
+                JArr [JObj [($"name", JStr $"i"); ($"type", JStr $"INT"); ($"range", JArr [JInt 1; JStr $"2"; JStr $"{{Param.N}}"])];
+                      JObj [($"name", JStr $"x"); ($"type", JStr $"FLOAT"); ($"range", JArr [JDec 15 (-1); JInt 2; JStr $"{{Param.F}}"])]])]);
+        ($"hostRequirements",
+         JObj [($"amounts", JArr [JObj [($"name", JStr $"amount.worker.vcpu"); ($"min", JInt 2)]])])].
+Definition ex_doc : json :=
+  JObj [($"specificationVersion", JStr $"jobtemplate-2023-09");
+        ($"$schema", JStr $"http://example");
+        ($"name", JStr $"job {{Param.N}}");
+        ($"parameterDefinitions",
+         JArr [JObj [($"name", JStr $"N"); ($"type", JStr $"INT"); ($"default", JStr $"5"); ($"minValue", JInt 1)];
+               JObj [($"name", JStr $"F"); ($"type", JStr $"FLOAT"); ($"maxValue", JDec 25 (-1))]]);
+        ($"steps", JArr [ex_step])].
+
+Example C17_roundtrip_partial_nonvacuous :
+  In "JobTemplate" template_classes
+  /\ exists v,
+      parse_any ascii_class "JobTemplate" ex_doc = Ok v
+      /\ prevalidate Generated.schema (fs_refs ascii_class) "JobTemplate" (export v) = []
+      /\ plain (export v) = true
+      /\ snd (roundtrip ascii_class "JobTemplate" v) = true
+      /\ export v <> ex_doc.
+Proof.
+  split; [vm_compute; tauto|].
+  destruct (parse_any ascii_class "JobTemplate" ex_doc) as [v|] eqn:E; [|vm_compute in E; discriminate].
+  exists v. split; [reflexivity|]. vm_compute in E. inversion E. subst v. clear E.
+  split; [vm_compute; reflexivity|].
+  split; [vm_compute; reflexivity|].
+  split; [vm_compute; reflexivity|].
+  vm_compute. discriminate.
+Qed.
+
+(* an inner class: a step template on its own (C17_roundtrip_inner needs no hypothesis) *)
+Example C17_roundtrip_inner_nonvacuous :
+  In "StepTemplate" inner_classes
+  /\ exists x, parse_cls Generated.schema ascii_class pre_hook (post_hook ascii_class) 40 "StepTemplate" ex_step = Ok x.
+Proof.
+  split; [vm_compute; tauto|].
+  destruct (parse_cls Generated.schema ascii_class pre_hook (post_hook ascii_class) 40 "StepTemplate" ex_step) as [x|] eqn:E;
+    [|vm_compute in E; discriminate].
+  exists x. reflexivity.
+Qed.
+
+(* the structural condition is not vacuous and really excludes something *)
+Example C17_roundtrip_generic_nonvacuous :
+  In "JobTemplate" template_classes /\ In "EnvironmentTemplate" template_classes
+  /\ ~ In "Job" template_classes
+  /\ kind_ok Generated.schema template_classes
+             (KUnion [UScalar KDec; UScalar (KFormat "TaskParameterStringValue" None None CS_any)]) = true
+  /\ kind_ok Generated.schema (map fst Generated.schema)
+             (KUnion [UScalar (KModel "RangeListTaskParameterDefinition");
+                      UScalar (KModel "RangeExpressionTaskParameterDefinition")]) = false.
+Proof.
+  split; [vm_compute; tauto|]. split; [vm_compute; tauto|].
+  split; [vm_compute; intuition discriminate|]. split; vm_compute; reflexivity.
+Qed.
